@@ -40,6 +40,7 @@ const (
 	shStartMiddles  = "start-then-middles-never-ended"
 	shFillThenFrag  = "complete-units-without-marker-then-unended-fragments"
 	shUnitsNoMarker = "complete-units-never-marked"
+	shFragThenFill  = "unended-fragments-then-complete-units-never-marked" // a pending fragmented unit of about half the maximum, then single-packet units for ever
 	shAggExtremes   = "aggregation-extremes" // maximum-size aggregation headers, zero-length units
 	shValidUnits    = "well-formed-fragmented-units"
 	shMutated       = "mutated-valid-stream"
@@ -47,7 +48,7 @@ const (
 	shCorpus        = "repository-fuzz-corpus"
 )
 
-var accumulationShapes = []string{shStartMiddles, shFillThenFrag, shUnitsNoMarker, shEndlessStart}
+var accumulationShapes = []string{shStartMiddles, shFillThenFrag, shFragThenFill, shUnitsNoMarker, shEndlessStart}
 
 // source produces the packets of a history in order.
 type source struct {
@@ -122,7 +123,7 @@ func newSource(spec histSpec, t target, corpus map[string][]*rtp.Packet) (*sourc
 				s.seqMode = seqGaps
 			}
 		}
-	case shEndlessStart, shEndlessMiddle, shStartMiddles, shFillThenFrag, shUnitsNoMarker:
+	case shEndlessStart, shEndlessMiddle, shStartMiddles, shFillThenFrag, shFragThenFill, shUnitsNoMarker:
 		// the named shapes: consecutive sequence numbers, constant timestamp, never a marker
 		s.seqMode, s.tsMode, s.mkMode = seqConsecutive, tsEqual, mkNever
 	case shMutated, shTruncSweep:
@@ -263,6 +264,19 @@ func (s *source) next() *rtp.Packet {
 		s.stamp(p, false)
 	case shUnitsNoMarker:
 		mk(rSingle, s.spec.Size)
+		s.stamp(p, false)
+	case shFragThenFill:
+		// a start fragment and middles up to about half of the maximum frame size, never ended;
+		// then complete single-packet units without marker for ever
+		half := s.t.lim.maxFrame / 2 / max(s.spec.Size, 1)
+		switch {
+		case i == 0:
+			mk(rStart, s.spec.Size)
+		case i <= half:
+			mk(rMiddle, s.spec.Size)
+		default:
+			mk(rSingle, s.spec.Size)
+		}
 		s.stamp(p, false)
 	case shFillThenFrag:
 		// phase 0: unitCap-1 complete fragmented units that nearly fill the frame buffer (no marker);
